@@ -175,18 +175,17 @@ def cutoffneighbors_particletype(
         errorinfo = 'Wrong atom_type_number for input r_cut'
         raise IOError(errorinfo)
 
-    # define cutoffs for each pair based on particle type
-    cutoffs = np.zeros((nparticle_type, snapshots.snapshots[0].nparticle))
-    for i in range(cutoffs.shape[0]):
-        for j in range(cutoffs.shape[1]):
-            cutoffs[i, j] = r_cut[i, snapshots.snapshots[0].particle_type[j] - 1]
-
     with open(fnfile, 'w', encoding="utf-8") as fneighbor:
         for snapshot in snapshots.snapshots:
             hmatrix = snapshot.hmatrix
             positions = snapshot.positions
             nparticle = snapshot.nparticle
             particle_type = snapshot.particle_type
+            # define cutoffs for each pair based on the particle types of this snapshot
+            cutoffs = np.zeros((nparticle_type, nparticle))
+            for i in range(cutoffs.shape[0]):
+                for j in range(cutoffs.shape[1]):
+                    cutoffs[i, j] = r_cut[i, particle_type[j] - 1]
             neighbor = np.arange(nparticle).astype(np.int32)
             fneighbor.write('id     cn     neighborlist\n')
             for i in range(nparticle):
